@@ -190,7 +190,11 @@ def load_config(cwd: Path) -> Config:
     # 3. Env override (highest priority)
     env_path = os.environ.get(ENV_CONFIG)
     if env_path:
-        env_config_path = Path(env_path).expanduser()
+        try:
+            env_config_path = Path(env_path).expanduser()
+        except RuntimeError:
+            # ~nosuchuser/x names no file: skipped like any missing file
+            return config
         try:
             if env_config_path.is_file():
                 env_config = _load_config_file(env_config_path)
